@@ -1546,10 +1546,18 @@ class BaseSpaceImpl(*_base_space_impl_base):
     def to_frame(self, args):
         return _to_frame_inner(self.cells, args)
 
+    def clear_ref_referrers(self):
+        """Clear values of formulas that read References by attribute access"""
+        for ref in self.own_refs.values():
+            self.model.clear_attr_referrers(ref)
+        for space in self.named_spaces.values():
+            space.clear_ref_referrers()
+
     def on_delete(self):
         for cells in self.cells.values():
             cells.clear_all_values(clear_input=True)
             cells.on_delete()
+        self.clear_ref_referrers()
         super().on_delete()
 
 
@@ -1950,6 +1958,7 @@ class UserSpaceImpl(*_user_space_impl_base):
     def on_rename(self, name):
         self.model.clear_obj(self)
         self.clear_all_cells(clear_input=True, recursive=True, del_items=True)
+        self.clear_ref_referrers()
         old_name = self.name
         self.name = name
         self.parent.named_spaces.rename_item(old_name, name)
